@@ -383,6 +383,8 @@ class MultiStream(Stream):
             stream._thermo = self._thermo
             stream._property_cache = {}
             stream.characterization_factors = {}
+            stream._price = 0. # A phase view is a complete stream (price, pickle, proxy)
+            stream.equations = Equations()
             stream._property_cache_key = None, None
             streams[phase] = stream
         return stream
